@@ -20,6 +20,8 @@ LitAtoms == { NullL, IntL(1), IntL(-2), IntL(0), Lit("Float", "1.5"), Lit("Float
               StrL(<<>>), StrL(<<111, Q, 114>>), StrL(<<Q>>), StrL(<<Q, Q>>), StrL(<<97, 32, 37, 95, 92, 34>>), StrL(<<233, 128165>>),
               Lit("Geography", "POINT(1 2)"), Lit("Geography", "POINT(1 2) -- O''Hare"), Lit("Date", "2020-02-29"), Lit("Time", "23:59:59.123"),
               Lit("DateTime", "2020-02-29T12:30:00Z"), Lit("DateTime", "1999-12-31T23:59+01:00"),
+              \* the lexer is case-insensitive and keeps the literal verbatim: lower-case designators are in the parser's image
+              Lit("DateTime", "2020-02-29t12:30:00z"), Lit("DateTime", "2021-03-04T05:06z"),
               Lit("Duration", "P1DT2H"), Lit("Duration", "-P1Y2M3DT4H5M6.5S"),
               Lit("GUID", "01234567-89ab-cdef-0123-456789abcdef") }
 IdAtoms == { a, Id(<<"ns">>, "b"), Id(<<"x", "y">>, "z"), Attr(a, "p"), Attr(Attr(a, "p"), "q"),
@@ -29,6 +31,8 @@ Atoms == IF Profile = "ops" THEN {a, one, StrL(<<111, Q, 114>>)} ELSE LitAtoms \
 Brackets == { Call(Id0("tolower"), <<E>>), Call(Id0("concat"), <<E, one>>),
               Call(Id(<<"f">>, "g"), <<Named(Id0("k"), E)>>),
               Call(Id(<<"f">>, "g"), <<Named(Id0("k"), one), Named(Id0("m"), E)>>),
+              \* named parameters whose names are not in alphabetical order
+              Call(Id(<<"f">>, "g"), <<Named(Id0("zeta"), one), Named(Id0("alpha"), E), Named(Id0("mid"), a)>>),
               Call(Id(<<"geo">>, "length"), <<E>>),
               Lst(<<E>>), Lst(<<E, one>>), Lst(<<Lst(<<E>>)>>),
               Coll(Id0("c"), "any", Lam(Id0("x"), E)), Coll(Attr(a, "q"), "all", Lam(Id0("x"), E)) }
